@@ -111,6 +111,8 @@ Definition running (s : status) : bool :=
   match s with SWait | SRun _ _ => true | _ => false end.
 Definition started (s : status) : bool :=
   match s with SWait | SRun _ _ | SEnded => true | _ => false end.
+Definition user_ok (s : status) : bool :=
+  match s with SRun _ _ | SEnded => true | _ => false end.
 
 Section Proofs.
 Variable cfg : config.
@@ -193,12 +195,13 @@ Proof. intros i Hge. unfold tk. now apply nth_overflow. Qed.
 
 (** * Invariants of reachable states *)
 
-Definition pending (st : state) (q c : nat) : Prop :=
-  match status_of st q with
+Definition pend (s : status) (c : nat) : Prop :=
+  match s with
   | SNot | SQueued | SWait => True
   | SRun r _ => In c (spawns r)
   | SEnded => False
   end.
+Definition pending (st : state) (q c : nat) : Prop := pend (status_of st q) c.
 
 Record inv (st : state) : Prop := mkInv {
   i_range : forall i, status_of st i <> SNot -> i < length p;
@@ -215,7 +218,8 @@ Record inv (st : state) : Prop := mkInv {
   i_deps : forall w d, In d (deps w) -> status_of st w <> SNot ->
              started (status_of st d) = true \/
              (status_of st w = SQueued /\
-              exists l1 l2, queue st (stg w) = l1 ++ d :: l2 /\ In w l2)
+              exists l1 l2, queue st (stg w) = l1 ++ d :: l2 /\ In w l2);
+  i_user : forall i, i < length p -> stg i = USER -> user_ok (status_of st i) = true
 }.
 
 Lemma inv_init : inv (init p).
@@ -233,11 +237,12 @@ Proof.
   - intros i r a Hs. destruct (Nat.eqb (stg i) USER); [|discriminate].
     injection Hs as Hr _. exists []. now subst.
   - intros q c Hin. pose proof (spawn_lt q c Hin) as Hlt. pose proof (wf_stage p Hwf q) as Hle.
-    unfold pending, init; cbn [status_of].
+    unfold pending, pend, init; cbn [status_of].
     destruct (Nat.eqb_spec (stg c) USER) as [He|Hn]; [lia|].
     destruct (Nat.eqb (stg q) USER); split; auto.
   - intros w d Hin Hne. destruct (Nat.eqb_spec (stg w) USER) as [He|Hn]; [|congruence].
     rewrite (wf_userdeps p Hwf w He) in Hin. contradiction.
+  - intros i _ Hu. rewrite Hu. reflexivity.
 Qed.
 
 Lemma suffix_spawn : forall st i c r a, inv st ->
@@ -262,7 +267,1294 @@ Lemma child_not_spawned : forall st i c r a, inv st ->
 Proof.
   intros st i c r a Hinv Hs.
   apply (i_spawn st Hinv i c (suffix_spawn st i c r a Hinv Hs)).
-  unfold pending. rewrite Hs. rewrite spawns_cons_spawn. now left.
+  unfold pending, pend. rewrite Hs. rewrite spawns_cons_spawn. now left.
+Qed.
+
+Lemma NoDup_snoc : forall (l : list nat) c, NoDup l -> ~ In c l -> NoDup (l ++ [c]).
+Proof.
+  induction l as [|x l IH]; intros c Hnd Hni; cbn [app].
+  - constructor; [intros []|constructor].
+  - inversion Hnd as [|x' l' Hx Hl]; subst. constructor.
+    + intros Hin. apply in_app_or in Hin. destruct Hin as [Hin|[He|[]]]; [contradiction|].
+      subst. apply Hni. now left.
+    + apply IH; [assumption|]. intros Hin. apply Hni. now right.
+Qed.
+
+Ltac ss_cases Hstep :=
+  destruct Hstep as [q' Hst Hq Hw | Hst Hd | a rest acq Hst Ha Hgd | c rest Hst Hc
+                    | c rest Hst | acq Hst];
+  cbn [status_of queue busy hold set_status finish] in *.
+
+Lemma inv_range_step : forall st i st', inv st -> sstep st i st' ->
+  forall j, status_of st' j <> SNot -> j < length p.
+Proof.
+  intros st i st' Hinv Hstep j Hne.
+  assert (Hi : i < length p).
+  { apply (i_range st Hinv). destruct Hstep; congruence. }
+  ss_cases Hstep.
+  1,2,3,4,6: (destruct (Nat.eq_dec j i) as [->|Hji]; [assumption|];
+              rewrite upd_other in Hne by assumption; now apply (i_range st Hinv)).
+  destruct (Nat.eq_dec j c) as [->|Hjc].
+  - eapply spawn_range. eapply suffix_spawn; eassumption.
+  - rewrite upd_other in Hne by assumption.
+    destruct (Nat.eq_dec j i) as [->|Hji]; [assumption|].
+    rewrite upd_other in Hne by assumption. now apply (i_range st Hinv).
+Qed.
+
+Lemma inv_queue_step : forall st i st', inv st -> sstep st i st' ->
+  forall s x, In x (queue st' s) -> status_of st' x = SQueued /\ stg x = s.
+Proof.
+  intros st i st' Hinv Hstep s x Hin.
+  ss_cases Hstep.
+  - pose proof (i_qnodup st Hinv (stg i)) as Hnd. rewrite Hq in Hnd.
+    destruct (Nat.eq_dec s (stg i)) as [->|Hs].
+    + rewrite upd_same in Hin.
+      assert (Hx : x <> i). { intros ->. inversion Hnd; contradiction. }
+      rewrite upd_other by assumption. apply (i_queue st Hinv). rewrite Hq. now right.
+    + rewrite upd_other in Hin by assumption.
+      destruct (i_queue st Hinv s x Hin) as [Hxs Hxg].
+      assert (Hx : x <> i) by congruence.
+      rewrite upd_other by assumption. auto.
+  - destruct (i_queue st Hinv s x Hin) as [Hxs Hxg]. assert (Hx : x <> i) by congruence.
+    rewrite upd_other by assumption. auto.
+  - destruct (i_queue st Hinv s x Hin) as [Hxs Hxg]. assert (Hx : x <> i) by congruence.
+    rewrite upd_other by assumption. auto.
+  - destruct (i_queue st Hinv s x Hin) as [Hxs Hxg]. assert (Hx : x <> i) by congruence.
+    rewrite upd_other by assumption. auto.
+  - pose proof (child_not_spawned st i c rest true Hinv Hst) as Hcn.
+    destruct (Nat.eq_dec x c) as [->|Hxc].
+    + rewrite upd_same. split; [reflexivity|].
+      destruct (Nat.eq_dec s (stg c)) as [->|Hs]; [reflexivity|].
+      rewrite upd_other in Hin by assumption.
+      destruct (i_queue st Hinv s c Hin) as [Hcs _]. congruence.
+    + rewrite upd_other by assumption.
+      assert (Hin' : In x (queue st s)).
+      { destruct (Nat.eq_dec s (stg c)) as [->|Hs].
+        - rewrite upd_same in Hin. apply in_app_or in Hin.
+          destruct Hin as [Hin|[He|[]]]; [assumption|congruence].
+        - now rewrite upd_other in Hin by assumption. }
+      destruct (i_queue st Hinv s x Hin') as [Hxs Hxg]. assert (Hx : x <> i) by congruence.
+      rewrite upd_other by assumption. auto.
+  - destruct (i_queue st Hinv s x Hin) as [Hxs Hxg]. assert (Hx : x <> i) by congruence.
+    rewrite upd_other by assumption. auto.
+Qed.
+
+Lemma inv_queued_step : forall st i st', inv st -> sstep st i st' ->
+  forall x, status_of st' x = SQueued -> In x (queue st' (stg x)).
+Proof.
+  intros st i st' Hinv Hstep x Hx.
+  ss_cases Hstep.
+  - destruct (Nat.eq_dec x i) as [->|Hxi]; [rewrite upd_same in Hx; discriminate|].
+    rewrite upd_other in Hx by assumption. pose proof (i_queued st Hinv x Hx) as Hin.
+    destruct (Nat.eq_dec (stg x) (stg i)) as [He|Hs].
+    + rewrite He in *. rewrite upd_same. rewrite Hq in Hin.
+      destruct Hin as [Hin|Hin]; [congruence|assumption].
+    + now rewrite upd_other by assumption.
+  - destruct (Nat.eq_dec x i) as [->|Hxi]; [rewrite upd_same in Hx; discriminate|].
+    rewrite upd_other in Hx by assumption. now apply (i_queued st Hinv).
+  - destruct (Nat.eq_dec x i) as [->|Hxi]; [rewrite upd_same in Hx; discriminate|].
+    rewrite upd_other in Hx by assumption. now apply (i_queued st Hinv).
+  - destruct (Nat.eq_dec x i) as [->|Hxi]; [rewrite upd_same in Hx; discriminate|].
+    rewrite upd_other in Hx by assumption. now apply (i_queued st Hinv).
+  - destruct (Nat.eq_dec x c) as [->|Hxc].
+    + rewrite upd_same. apply in_or_app. right. now left.
+    + rewrite upd_other in Hx by assumption.
+      destruct (Nat.eq_dec x i) as [->|Hxi]; [rewrite upd_same in Hx; discriminate|].
+      rewrite upd_other in Hx by assumption. pose proof (i_queued st Hinv x Hx) as Hin.
+      destruct (Nat.eq_dec (stg x) (stg c)) as [He|Hs].
+      * rewrite He in *. rewrite upd_same. apply in_or_app. now left.
+      * now rewrite upd_other by assumption.
+  - destruct (Nat.eq_dec x i) as [->|Hxi]; [rewrite upd_same in Hx; discriminate|].
+    rewrite upd_other in Hx by assumption. now apply (i_queued st Hinv).
+Qed.
+
+Lemma inv_qnodup_step : forall st i st', inv st -> sstep st i st' ->
+  forall s, NoDup (queue st' s).
+Proof.
+  intros st i st' Hinv Hstep s.
+  ss_cases Hstep; try apply (i_qnodup st Hinv).
+  - destruct (Nat.eq_dec s (stg i)) as [->|Hs].
+    + rewrite upd_same. pose proof (i_qnodup st Hinv (stg i)) as Hnd. rewrite Hq in Hnd.
+      now inversion Hnd.
+    + rewrite upd_other by assumption. apply (i_qnodup st Hinv).
+  - destruct (Nat.eq_dec s (stg c)) as [->|Hs].
+    + rewrite upd_same. apply NoDup_snoc; [apply (i_qnodup st Hinv)|].
+      intros Hin. destruct (i_queue st Hinv _ _ Hin) as [Hcs _].
+      rewrite (child_not_spawned st i c rest true Hinv Hst) in Hcs. discriminate.
+    + rewrite upd_other by assumption. apply (i_qnodup st Hinv).
+Qed.
+
+Lemma inv_busy_step : forall st i st', inv st -> sstep st i st' ->
+  forall s x, In x (busy st' s) -> running (status_of st' x) = true /\ stg x = s.
+Proof.
+  intros st i st' Hinv Hstep s x Hin.
+  ss_cases Hstep.
+  - destruct (Nat.eq_dec x i) as [->|Hxi].
+    + rewrite upd_same. split; [reflexivity|].
+      destruct (Nat.eq_dec s (stg i)) as [->|Hs]; [reflexivity|].
+      rewrite upd_other in Hin by assumption. now apply (i_busy st Hinv) in Hin.
+    + rewrite upd_other by assumption. apply (i_busy st Hinv).
+      destruct (Nat.eq_dec s (stg i)) as [->|Hs].
+      * rewrite upd_same in Hin. destruct Hin as [He|Hin]; [congruence|assumption].
+      * now rewrite upd_other in Hin by assumption.
+  - destruct (i_busy st Hinv s x Hin) as [Hr Hg].
+    destruct (Nat.eq_dec x i) as [->|Hxi]; [rewrite upd_same; auto|].
+    rewrite upd_other by assumption. auto.
+  - destruct (i_busy st Hinv s x Hin) as [Hr Hg].
+    destruct (Nat.eq_dec x i) as [->|Hxi]; [rewrite upd_same; auto|].
+    rewrite upd_other by assumption. auto.
+  - destruct (i_busy st Hinv s x Hin) as [Hr Hg].
+    destruct (Nat.eq_dec x i) as [->|Hxi]; [rewrite upd_same; auto|].
+    rewrite upd_other by assumption. auto.
+  - destruct (i_busy st Hinv s x Hin) as [Hr Hg].
+    pose proof (child_not_spawned st i c rest true Hinv Hst) as Hcn.
+    assert (Hxc : x <> c). { intros ->. rewrite Hcn in Hr. discriminate. }
+    rewrite upd_other by assumption.
+    destruct (Nat.eq_dec x i) as [->|Hxi]; [rewrite upd_same; auto|].
+    rewrite upd_other by assumption. auto.
+  - destruct (Nat.eq_dec s (stg i)) as [->|Hs].
+    + rewrite upd_same in Hin. apply remove_id_in in Hin. destruct Hin as [Hin Hxi].
+      rewrite upd_other by assumption. now apply (i_busy st Hinv).
+    + rewrite upd_other in Hin by assumption.
+      destruct (i_busy st Hinv s x Hin) as [Hr Hg].
+      assert (Hxi : x <> i) by congruence.
+      rewrite upd_other by assumption. auto.
+Qed.
+
+Lemma NoDup_app_disj : forall (a b : list nat) x, NoDup (a ++ b) -> In x a -> ~ In x b.
+Proof.
+  induction a as [|y a IH]; intros b x Hnd Hin Hb; [contradiction|].
+  cbn [app] in Hnd. inversion Hnd as [|y' l' Hy Hl]; subst.
+  destruct Hin as [He|Hin].
+  - subst. apply Hy. apply in_or_app. now right.
+  - eapply IH; eassumption.
+Qed.
+
+Lemma inv_hold_step : forall st i st', inv st -> sstep st i st' ->
+  forall m x, In x (hold st' m) ->
+    sem_of (tk p x) = m /\
+    (status_of st' x = SNot -> exists q r, status_of st' q = SRun (ASpawn x :: r) true).
+Proof.
+  intros st i st' Hinv Hstep m x Hin.
+  (* the steps that touch only the status of i, with a holder list that can only shrink *)
+  assert (Hgen : forall v, v <> SNot -> In x (hold st m) ->
+            (forall r, status_of st i <> SRun (ASpawn x :: r) true) ->
+            sem_of (tk p x) = m /\
+            (upd (status_of st) i v x = SNot ->
+             exists q r, upd (status_of st) i v q = SRun (ASpawn x :: r) true)).
+  { intros v Hv Hin0 Hni. destruct (i_hold st Hinv m x Hin0) as [Hsem Hw].
+    split; [assumption|]. intros Hx.
+    destruct (Nat.eq_dec x i) as [->|Hxi]; [rewrite upd_same in Hx; contradiction|].
+    rewrite upd_other in Hx by assumption. destruct (Hw Hx) as (q & r & Hq).
+    exists q, r. rewrite upd_other; [assumption|]. intros ->. now apply (Hni r). }
+  ss_cases Hstep.
+  - apply Hgen; [discriminate|assumption|]. intros r. congruence.
+  - apply Hgen; [discriminate|assumption|]. intros r. congruence.
+  - apply Hgen; [discriminate|assumption|]. intros r He. rewrite Hst in He.
+    injection He as Ha' _ _. subst a. discriminate.
+  - destruct (sem_eqb_spec m (sem_of (tk p c))) as [->|Hm].
+    + rewrite upds_same in Hin. apply in_app_or in Hin. destruct Hin as [Hin|[He|[]]].
+      * apply Hgen; [discriminate|assumption|]. intros r. congruence.
+      * subst x. split; [reflexivity|]. intros _. exists i, rest. now rewrite upd_same.
+    + rewrite upds_other in Hin by assumption.
+      apply Hgen; [discriminate|assumption|]. intros r. congruence.
+  - destruct (i_hold st Hinv m x Hin) as [Hsem Hw]. split; [assumption|]. intros Hx.
+    pose proof (child_not_spawned st i c rest true Hinv Hst) as Hcn.
+    destruct (Nat.eq_dec x c) as [->|Hxc]; [rewrite upd_same in Hx; discriminate|].
+    rewrite upd_other in Hx by assumption.
+    destruct (Nat.eq_dec x i) as [->|Hxi]; [rewrite upd_same in Hx; discriminate|].
+    rewrite upd_other in Hx by assumption. destruct (Hw Hx) as (q & r & Hq).
+    exists q, r.
+    assert (Hqc : q <> c) by congruence.
+    assert (Hqi : q <> i). { intros ->. rewrite Hst in Hq. injection Hq as Hq _. congruence. }
+    now rewrite !upd_other by assumption.
+  - assert (Hin0 : In x (hold st m)).
+    { destruct (sem_eqb_spec m (sem_of (tk p i))) as [->|Hm].
+      - rewrite upds_same in Hin. eapply sweep_incl; eassumption.
+      - now rewrite upds_other in Hin by assumption. }
+    apply Hgen; [discriminate|assumption|]. intros r. congruence.
+Qed.
+
+Lemma inv_head_step : forall st i st', inv st -> sstep st i st' ->
+  forall m h r, hold st' m = h :: r -> status_of st' h <> SEnded.
+Proof.
+  intros st i st' Hinv Hstep m h r Hh.
+  ss_cases Hstep.
+  - destruct (Nat.eq_dec h i) as [->|Hhi]; [rewrite upd_same; discriminate|].
+    rewrite upd_other by assumption. eapply (i_head st Hinv); eassumption.
+  - destruct (Nat.eq_dec h i) as [->|Hhi]; [rewrite upd_same; discriminate|].
+    rewrite upd_other by assumption. eapply (i_head st Hinv); eassumption.
+  - destruct (Nat.eq_dec h i) as [->|Hhi]; [rewrite upd_same; discriminate|].
+    rewrite upd_other by assumption. eapply (i_head st Hinv); eassumption.
+  - destruct (Nat.eq_dec h i) as [->|Hhi]; [rewrite upd_same; discriminate|].
+    rewrite upd_other by assumption.
+    destruct (sem_eqb_spec m (sem_of (tk p c))) as [->|Hm].
+    + rewrite upds_same in Hh.
+      destruct (hold st (sem_of (tk p c))) as [|h0 r0] eqn:Hold; cbn [app] in Hh.
+      * injection Hh as Hh _. subst h.
+        rewrite (child_not_spawned st i c rest false Hinv Hst). discriminate.
+      * injection Hh as Hh _. subst h0. eapply (i_head st Hinv); eassumption.
+    + rewrite upds_other in Hh by assumption. eapply (i_head st Hinv); eassumption.
+  - destruct (Nat.eq_dec h c) as [->|Hhc]; [rewrite upd_same; discriminate|].
+    rewrite upd_other by assumption.
+    destruct (Nat.eq_dec h i) as [->|Hhi]; [rewrite upd_same; discriminate|].
+    rewrite upd_other by assumption. eapply (i_head st Hinv); eassumption.
+  - destruct (sem_eqb_spec m (sem_of (tk p i))) as [->|Hm].
+    + rewrite upds_same in Hh. apply sweep_head in Hh.
+      intros He. rewrite He in Hh. discriminate.
+    + rewrite upds_other in Hh by assumption.
+      assert (Hhi : h <> i).
+      { intros ->. destruct (i_hold st Hinv m i) as [Hsem _]; [rewrite Hh; now left|]. congruence. }
+      rewrite upd_other by assumption. eapply (i_head st Hinv); eassumption.
+Qed.
+
+Lemma inv_suffix_step : forall st i st', inv st -> sstep st i st' ->
+  forall j r a, status_of st' j = SRun r a -> exists pre, prog j = pre ++ r.
+Proof.
+  intros st i st' Hinv Hstep j r b Hj.
+  ss_cases Hstep.
+  - destruct (Nat.eq_dec j i) as [->|Hji]; [rewrite upd_same in Hj; discriminate|].
+    rewrite upd_other in Hj by assumption. eapply (i_suffix st Hinv); eassumption.
+  - destruct (Nat.eq_dec j i) as [->|Hji].
+    + rewrite upd_same in Hj. injection Hj as Hr _. subst r. now exists [].
+    + rewrite upd_other in Hj by assumption. eapply (i_suffix st Hinv); eassumption.
+  - destruct (Nat.eq_dec j i) as [->|Hji].
+    + rewrite upd_same in Hj. injection Hj as Hr _. subst r.
+      destruct (i_suffix st Hinv i _ _ Hst) as (pre & Hp). exists (pre ++ [a]).
+      rewrite <- app_assoc. exact Hp.
+    + rewrite upd_other in Hj by assumption. eapply (i_suffix st Hinv); eassumption.
+  - destruct (Nat.eq_dec j i) as [->|Hji].
+    + rewrite upd_same in Hj. injection Hj as Hr _. subst r.
+      eapply (i_suffix st Hinv); eassumption.
+    + rewrite upd_other in Hj by assumption. eapply (i_suffix st Hinv); eassumption.
+  - destruct (Nat.eq_dec j c) as [->|Hjc]; [rewrite upd_same in Hj; discriminate|].
+    rewrite upd_other in Hj by assumption.
+    destruct (Nat.eq_dec j i) as [->|Hji].
+    + rewrite upd_same in Hj. injection Hj as Hr _. subst r.
+      destruct (i_suffix st Hinv i _ _ Hst) as (pre & Hp). exists (pre ++ [ASpawn c]).
+      rewrite <- app_assoc. exact Hp.
+    + rewrite upd_other in Hj by assumption. eapply (i_suffix st Hinv); eassumption.
+  - destruct (Nat.eq_dec j i) as [->|Hji]; [rewrite upd_same in Hj; discriminate|].
+    rewrite upd_other in Hj by assumption. eapply (i_suffix st Hinv); eassumption.
+Qed.
+
+Lemma inv_spawn_step : forall st i st', inv st -> sstep st i st' ->
+  forall q c0, In c0 (spawns (prog q)) -> (status_of st' c0 = SNot <-> pending st' q c0).
+Proof.
+  intros st i st' Hinv Hstep q c0 Hin.
+  pose proof (i_spawn st Hinv q c0 Hin) as Hold. unfold pending in *.
+  assert (Hgen : forall v, v <> SNot -> status_of st i <> SNot ->
+            (q = i -> (pend v c0 <-> pend (status_of st i) c0)) ->
+            (upd (status_of st) i v c0 = SNot <-> pend (upd (status_of st) i v q) c0)).
+  { intros v Hv Hi Hq.
+    assert (Hl : upd (status_of st) i v c0 = SNot <-> status_of st c0 = SNot).
+    { destruct (Nat.eq_dec c0 i) as [->|Hci]; [rewrite upd_same; tauto|].
+      now rewrite upd_other by assumption. }
+    rewrite Hl, Hold.
+    destruct (Nat.eq_dec q i) as [->|Hqi].
+    - rewrite upd_same. symmetry. now apply Hq.
+    - rewrite upd_other by assumption. tauto. }
+  ss_cases Hstep.
+  - apply Hgen; [discriminate|congruence|]. intros _. rewrite Hst. cbn [pend]. tauto.
+  - apply Hgen; [discriminate|congruence|]. intros ->. rewrite Hst. cbn [pend]. tauto.
+  - apply Hgen; [discriminate|congruence|]. intros _. rewrite Hst. cbn [pend].
+    now rewrite (spawns_cons_other a rest Ha).
+  - apply Hgen; [discriminate|congruence|]. intros _. rewrite Hst. cbn [pend]. tauto.
+  - pose proof (child_not_spawned st i c rest true Hinv Hst) as Hcn.
+    pose proof (suffix_spawn st i c rest true Hinv Hst) as Hci.
+    pose proof (spawn_ne i c Hci) as Hne.
+    destruct (Nat.eq_dec c0 c) as [->|Hc0].
+    + rewrite upd_same.
+      assert (Hq : q = i) by (eapply (wf_uniq p Hwf); eassumption). subst q.
+      rewrite upd_other by auto. rewrite upd_same. cbn [pend].
+      pose proof (suffix_fresh st i c rest true Hinv Hst) as Hfr.
+      split; [discriminate|contradiction].
+    + rewrite (upd_other _ _ c _ c0) by assumption.
+      assert (Hl : upd (status_of st) i (SRun rest false) c0 = SNot <-> status_of st c0 = SNot).
+      { destruct (Nat.eq_dec c0 i) as [->|Hc0i]; [rewrite upd_same, Hst; split; discriminate|].
+        now rewrite upd_other by assumption. }
+      rewrite Hl, Hold.
+      destruct (Nat.eq_dec q c) as [->|Hqc].
+      * rewrite upd_same, Hcn. cbn [pend]. tauto.
+      * rewrite upd_other by assumption.
+        destruct (Nat.eq_dec q i) as [->|Hqi].
+        -- rewrite upd_same, Hst. cbn [pend]. rewrite spawns_cons_spawn. cbn [In].
+           split; [intros [He|Hr]; [congruence|assumption]|auto].
+        -- rewrite upd_other by assumption. tauto.
+  - apply Hgen; [discriminate|congruence|]. intros _. rewrite Hst. cbn [pend spawns flat_map In].
+    tauto.
+Qed.
+
+Lemma inv_deps_step : forall st i st', inv st -> sstep st i st' ->
+  forall w d, In d (deps w) -> status_of st' w <> SNot ->
+    started (status_of st' d) = true \/
+    (status_of st' w = SQueued /\
+     exists l1 l2, queue st' (stg w) = l1 ++ d :: l2 /\ In w l2).
+Proof.
+  intros st i st' Hinv Hstep w d Hin Hwn.
+  assert (Hgen : forall v, started v = true -> started (status_of st i) = true ->
+            upd (status_of st) i v w <> SNot ->
+            started (upd (status_of st) i v d) = true \/
+            (upd (status_of st) i v w = SQueued /\
+             exists l1 l2, queue st (stg w) = l1 ++ d :: l2 /\ In w l2)).
+  { intros v Hv Hi Hw'.
+    assert (Hw0 : status_of st w <> SNot).
+    { destruct (Nat.eq_dec w i) as [->|Hwi]; [intros He; rewrite He in Hi; discriminate|].
+      now rewrite upd_other in Hw' by assumption. }
+    destruct (i_deps st Hinv w d Hin Hw0) as [Hsd|(Hwq & Hqq)].
+    - left. destruct (Nat.eq_dec d i) as [->|Hdi]; [now rewrite upd_same|].
+      now rewrite upd_other by assumption.
+    - right. split; [|assumption].
+      destruct (Nat.eq_dec w i) as [->|Hwi]; [rewrite Hwq in Hi; discriminate|].
+      now rewrite upd_other by assumption. }
+  ss_cases Hstep.
+  - assert (Hw0 : status_of st w <> SNot).
+    { destruct (Nat.eq_dec w i) as [->|Hwi]; [congruence|].
+      now rewrite upd_other in Hwn by assumption. }
+    pose proof (i_qnodup st Hinv (stg i)) as Hnd. rewrite Hq in Hnd.
+    destruct (i_deps st Hinv w d Hin Hw0) as [Hsd|(Hwq & l1 & l2 & Hql & Hwl)].
+    + left. destruct (Nat.eq_dec d i) as [->|Hdi]; [now rewrite upd_same|].
+      now rewrite upd_other by assumption.
+    + destruct (Nat.eq_dec (stg w) (stg i)) as [Hs|Hs].
+      * rewrite Hs in *. rewrite Hq in Hql.
+        destruct l1 as [|x l1]; cbn [app] in Hql; injection Hql as Hx Hql.
+        -- subst d. left. now rewrite upd_same.
+        -- subst x. right.
+           assert (Hwi : w <> i).
+           { intros ->. inversion Hnd as [|y l Hni Hl]; subst. apply Hni.
+             apply in_or_app. right. now right. }
+           rewrite upd_other by assumption. split; [assumption|].
+           exists l1, l2. rewrite upd_same. split; assumption.
+      * right. assert (Hwi : w <> i) by congruence.
+        rewrite upd_other by assumption. split; [assumption|].
+        exists l1, l2. rewrite upd_other by assumption. auto.
+  - apply Hgen; [reflexivity|now rewrite Hst|assumption].
+  - apply Hgen; [reflexivity|now rewrite Hst|assumption].
+  - apply Hgen; [reflexivity|now rewrite Hst|assumption].
+  - pose proof (child_not_spawned st i c rest true Hinv Hst) as Hcn.
+    pose proof (suffix_spawn st i c rest true Hinv Hst) as Hci.
+    pose proof (spawn_ne i c Hci) as Hne.
+    destruct (Nat.eq_dec w c) as [->|Hwc].
+    + destruct (i_suffix st Hinv i _ _ Hst) as (pre & Hp).
+      destruct (wf_deps p Hwf i pre c rest d Hp Hin) as [Hdpre Hds].
+      assert (Hdi : In d (spawns (prog i))).
+      { rewrite Hp, spawns_app. apply in_or_app. now left. }
+      assert (Hdn : status_of st d <> SNot).
+      { intros Hd. apply (i_spawn st Hinv i d Hdi) in Hd. unfold pending in Hd.
+        rewrite Hst in Hd. cbn [pend] in Hd.
+        pose proof (wf_nodup p Hwf i) as Hnd. rewrite Hp, spawns_app in Hnd.
+        exact (NoDup_app_disj _ _ d Hnd Hdpre Hd). }
+      assert (Hdc : d <> c) by congruence.
+      assert (Hdi' : d <> i) by (now apply spawn_ne).
+      rewrite (upd_other _ _ c _ d) by assumption.
+      rewrite (upd_other _ _ i _ d) by assumption.
+      destruct (status_of st d) eqn:Hsd; try (now left).
+      right. rewrite upd_same. split; [reflexivity|].
+      pose proof (i_queued st Hinv d Hsd) as Hdq. rewrite Hds in Hdq.
+      apply in_split in Hdq. destruct Hdq as (l1 & l2 & Hqq). exists l1, (l2 ++ [c]).
+      rewrite upd_same, Hqq. rewrite <- app_assoc. cbn [app].
+      split; [reflexivity|]. apply in_or_app. right. now left.
+    + assert (Hw0 : status_of st w <> SNot).
+      { rewrite upd_other in Hwn by assumption.
+        destruct (Nat.eq_dec w i) as [->|Hwi]; [congruence|].
+        now rewrite upd_other in Hwn by assumption. }
+      destruct (i_deps st Hinv w d Hin Hw0) as [Hsd|(Hwq & l1 & l2 & Hql & Hwl)].
+      * left. assert (Hdc : d <> c). { intros ->. rewrite Hcn in Hsd. discriminate. }
+        rewrite upd_other by assumption.
+        destruct (Nat.eq_dec d i) as [->|Hdi]; [now rewrite upd_same|].
+        now rewrite upd_other by assumption.
+      * right. assert (Hwi : w <> i) by congruence.
+        rewrite (upd_other _ _ c _ w) by assumption.
+        rewrite (upd_other _ _ i _ w) by assumption.
+        split; [assumption|].
+        destruct (Nat.eq_dec (stg w) (stg c)) as [Hs|Hs].
+        -- rewrite Hs in *. rewrite upd_same. exists l1, (l2 ++ [c]).
+           rewrite Hql, <- app_assoc. cbn [app].
+           split; [reflexivity|apply in_or_app; now left].
+        -- rewrite upd_other by assumption. exists l1, l2. auto.
+  - apply Hgen; [reflexivity|now rewrite Hst|assumption].
+Qed.
+
+Lemma inv_user_step : forall st i st', inv st -> sstep st i st' ->
+  forall j, j < length p -> stg j = USER -> user_ok (status_of st' j) = true.
+Proof.
+  intros st i st' Hinv Hstep j Hj Hu. pose proof (i_user st Hinv j Hj Hu) as Hold.
+  ss_cases Hstep.
+  1,2,3,4,6: (destruct (Nat.eq_dec j i) as [->|Hji];
+              [rewrite Hst in Hold; try discriminate; rewrite upd_same; reflexivity|];
+              now rewrite upd_other by assumption).
+  pose proof (suffix_spawn st i c rest true Hinv Hst) as Hci.
+  pose proof (spawn_lt i c Hci) as Hlt. pose proof (wf_stage p Hwf i) as Hle.
+  assert (Hjc : j <> c) by (intros ->; lia).
+  rewrite upd_other by assumption.
+  destruct (Nat.eq_dec j i) as [->|Hji]; [rewrite upd_same; reflexivity|].
+  now rewrite upd_other by assumption.
+Qed.
+
+Lemma inv_step : forall st i st', inv st -> step cfg p st i = Some st' -> inv st'.
+Proof.
+  intros st i st' Hinv Hs. apply step_sstep in Hs. constructor.
+  - eapply inv_range_step; eassumption.
+  - eapply inv_queue_step; eassumption.
+  - eapply inv_queued_step; eassumption.
+  - eapply inv_qnodup_step; eassumption.
+  - eapply inv_busy_step; eassumption.
+  - eapply inv_hold_step; eassumption.
+  - eapply inv_head_step; eassumption.
+  - eapply inv_suffix_step; eassumption.
+  - eapply inv_spawn_step; eassumption.
+  - eapply inv_deps_step; eassumption.
+  - eapply inv_user_step; eassumption.
+Qed.
+
+Lemma inv_reachable : forall st, reachable cfg p st -> inv st.
+Proof.
+  intros st Hr. induction Hr as [|st i st' Hr IH Hs]; [apply inv_init|].
+  eapply inv_step; eassumption.
+Qed.
+
+(** * Progress *)
+
+Hypothesis Hcfg : config_ok cfg.
+
+Definition can_step (st : state) : Prop :=
+  exists i st', i < length p /\ step cfg p st i = Some st'.
+
+Lemma sem_same_stage : forall h c, sem_of (tk p h) = sem_of (tk p c) -> stg h = stg c.
+Proof.
+  intros h c He. unfold sem_of in He.
+  destruct (t_tag (tk p h)) as [k|] eqn:Hh; destruct (t_tag (tk p c)) as [k'|] eqn:Hc;
+    try discriminate.
+  - rewrite (wf_tag p Hwf h k Hh), (wf_tag p Hwf c k' Hc). reflexivity.
+  - now injection He.
+Qed.
+
+Lemma desc_stage_lt : forall f i d, In d (desc p f i) -> stg d < stg i.
+Proof.
+  induction f as [|f IH]; intros i d Hin; [contradiction|].
+  cbn [desc] in Hin. apply in_app_or in Hin. destruct Hin as [Hin|Hin].
+  - now apply spawn_lt.
+  - apply in_flat_map in Hin. destruct Hin as (c & Hc & Hd).
+    pose proof (spawn_lt i c Hc) as Hlt. specialize (IH c d Hd). lia.
+Qed.
+
+Lemma status_cases : forall s, s = SNot \/ live s = true \/ s = SEnded.
+Proof. intros [| | | |]; cbn; auto. Qed.
+
+Section AtMin.
+Variable st : state.
+Hypothesis Hinv : inv st.
+Variable s : nat.
+Hypothesis Hmin : forall j, live (status_of st j) = true -> s <= stg j.
+
+Lemma below_not_live : forall x, stg x < s -> live (status_of st x) = false.
+Proof.
+  intros x Hlt. destruct (live (status_of st x)) eqn:Hl; [|reflexivity].
+  specialize (Hmin x Hl). lia.
+Qed.
+
+Lemma child_of_ended : forall c c', stg c < s -> status_of st c = SEnded ->
+  In c' (spawns (prog c)) -> status_of st c' = SEnded /\ stg c' < s.
+Proof.
+  intros c c' Hlt Hc Hin. pose proof (spawn_lt c c' Hin) as Hlt'.
+  split; [|lia].
+  destruct (status_cases (status_of st c')) as [Hn|[Hl|He]]; [| |assumption].
+  - apply (i_spawn st Hinv c c' Hin) in Hn. unfold pending in Hn. rewrite Hc in Hn. contradiction.
+  - rewrite below_not_live in Hl by lia. discriminate.
+Qed.
+
+Lemma ended_desc : forall f c j, stg c < s -> status_of st c = SEnded ->
+  In j (desc p f c) -> status_of st j = SEnded.
+Proof.
+  induction f as [|f IH]; intros c j Hlt Hc Hin; [contradiction|].
+  cbn [desc] in Hin. apply in_app_or in Hin. destruct Hin as [Hin|Hin].
+  - now apply (child_of_ended c j Hlt Hc).
+  - apply in_flat_map in Hin. destruct Hin as (c' & Hc' & Hj).
+    destruct (child_of_ended c c' Hlt Hc Hc') as [He Hl]. eapply IH; eassumption.
+Qed.
+
+(** (a) a running thread of the least live stage can move, or the holder of
+    the permit it waits for can. *)
+Lemma run_can_step_aux : forall N r rest acq, r < N ->
+  status_of st r = SRun rest acq -> stg r = s -> can_step st.
+Proof.
+  induction N as [|N IHN]; intros r rest acq HrN Hst Hs; [lia|].
+  assert (Hr : r < length p) by (apply (i_range st Hinv); congruence).
+  destruct rest as [|a rest].
+  { exists r. eexists. split; [assumption|]. unfold step. rewrite Hst. reflexivity. }
+  destruct (i_suffix st Hinv r _ _ Hst) as (pre & Hp).
+  destruct a as [|c| |j|].
+  - exists r. eexists. split; [assumption|]. unfold step. rewrite Hst. reflexivity.
+  - destruct acq.
+    { exists r. eexists. split; [assumption|]. unfold step. rewrite Hst. reflexivity. }
+    destruct (Nat.ltb_spec (length (hold st (sem_of (tk p c)))) (cap cfg (sem_of (tk p c))))
+      as [Hlt|Hge].
+    { exists r. eexists. split; [assumption|]. unfold step. rewrite Hst. cbv beta iota zeta.
+      apply Nat.ltb_lt in Hlt. rewrite Hlt. reflexivity. }
+    destruct (hold st (sem_of (tk p c))) as [|h t] eqn:Hh.
+    { destruct Hcfg as [_ Hcap]. specialize (Hcap (sem_of (tk p c))). cbn [length] in Hge. lia. }
+    destruct (i_hold st Hinv (sem_of (tk p c)) h) as [Hsem Hw]; [rewrite Hh; now left|].
+    pose proof (i_head st Hinv (sem_of (tk p c)) _ _ Hh) as Hne.
+    destruct (status_cases (status_of st h)) as [Hn|[Hl|He]]; [| |contradiction].
+    + destruct (Hw Hn) as (q & r' & Hq).
+      exists q. eexists. split; [apply (i_range st Hinv); congruence|].
+      unfold step. rewrite Hq. reflexivity.
+    + pose proof (suffix_spawn st r c rest false Hinv Hst) as Hc.
+      pose proof (spawn_lt r c Hc) as Hlt. pose proof (sem_same_stage h c Hsem) as Hhc.
+      pose proof (Hmin h Hl) as Hle. lia.
+  - exists r. eexists. split; [assumption|]. unfold step. rewrite Hst. cbv beta iota zeta.
+    assert (Hg : guard p st r AWaitAll = true).
+    { cbn [guard]. apply forallb_forall. intros d Hd. unfold descendants in Hd.
+      apply desc_stage_lt in Hd. rewrite below_not_live by lia. reflexivity. }
+    rewrite Hg. reflexivity.
+  - assert (Hu : stg r = USER).
+    { apply (wf_useract p Hwf r (AWaitDone j)); [rewrite Hp; apply in_or_app; right; now left|].
+      right. now exists j. }
+    destruct (wf_waitdone p Hwf r pre j rest Hp) as (c & Hc & Hj).
+    (* once the root c of j has ended, so has j, and r passes result() *)
+    assert (Hpass : stg c < s -> status_of st c = SEnded -> can_step st).
+    { intros Hcs Hce. exists r. eexists. split; [assumption|].
+      unfold step. rewrite Hst. cbv beta iota zeta.
+      assert (Hg : guard p st r (AWaitDone j) = true).
+      { cbn [guard]. destruct Hj as [->|Hj]; [now rewrite Hce|].
+        unfold descendants in Hj. now rewrite (ended_desc (stg c) c j Hcs Hce Hj). }
+      rewrite Hg. reflexivity. }
+    destruct Hc as [Hc|(u & Hur & Huu & Hcu)].
+    + assert (Hcr : In c (spawns (prog r))).
+      { rewrite Hp, spawns_app. apply in_or_app. now left. }
+      pose proof (spawn_lt r c Hcr) as Hlt.
+      apply Hpass; [lia|].
+      destruct (status_cases (status_of st c)) as [Hn|[Hl|He]]; [| |assumption].
+      * apply (i_spawn st Hinv r c Hcr) in Hn. unfold pending in Hn. rewrite Hst in Hn.
+        cbn [pend] in Hn. pose proof (wf_nodup p Hwf r) as Hnd.
+        rewrite Hp, spawns_app in Hnd.
+        exfalso. exact (NoDup_app_disj _ _ c Hnd Hc Hn).
+      * rewrite below_not_live in Hl by lia. discriminate.
+    + (* the future comes from user thread u < r: u has ended, or it runs and (induction) moves *)
+      pose proof (spawn_lt u c Hcu) as Hlt.
+      assert (Hun : u < length p) by lia.
+      pose proof (i_user st Hinv u Hun Huu) as Huo.
+      destruct (status_of st u) as [| | |ru au|] eqn:Hust; try discriminate.
+      * apply (IHN u ru au); [lia|assumption|congruence].
+      * apply Hpass; [lia|].
+        destruct (status_cases (status_of st c)) as [Hn|[Hl|He]]; [| |assumption].
+        -- apply (i_spawn st Hinv u c Hcu) in Hn. unfold pending in Hn. rewrite Hust in Hn.
+           contradiction.
+        -- rewrite below_not_live in Hl by lia. discriminate.
+  - exists r. eexists. split; [assumption|]. unfold step. rewrite Hst. cbv beta iota zeta.
+    assert (Hg : guard p st r AJoin = true).
+    { cbn [guard].
+      assert (Hu : stg r = USER).
+      { apply (wf_useract p Hwf r AJoin); [rewrite Hp; apply in_or_app; right; now left|].
+        now left. }
+      apply forallb_forall. intros s' Hs'. apply in_seq in Hs'.
+      destruct (queue st s') as [|x t] eqn:Hq.
+      - destruct (busy st s') as [|x t] eqn:Hb; [reflexivity|].
+        destruct (i_busy st Hinv s' x) as [Hrun Hx]; [rewrite Hb; now left|].
+        assert (Hl : live (status_of st x) = true) by (destruct (status_of st x); auto).
+        specialize (Hmin x Hl). lia.
+      - destruct (i_queue st Hinv s' x) as [Hxq Hx]; [rewrite Hq; now left|].
+        assert (Hl : live (status_of st x) = true) by now rewrite Hxq.
+        specialize (Hmin x Hl). lia. }
+    rewrite Hg. reflexivity.
+Qed.
+
+Lemma run_can_step : forall r rest acq,
+  status_of st r = SRun rest acq -> stg r = s -> can_step st.
+Proof.
+  intros r rest acq Hst Hs. apply (run_can_step_aux (S r) r rest acq); auto.
+Qed.
+
+(** (b) nobody of stage s runs: the started tasks wait for dependencies, which
+    are earlier siblings; the earliest one has all its dependencies ended. *)
+Lemma wait_can_step_aux :
+  (forall x r a, stg x = s -> status_of st x <> SRun r a) ->
+  forall N w q pre post, length pre < N -> prog q = pre ++ ASpawn w :: post ->
+    status_of st w = SWait -> stg w = s -> can_step st.
+Proof.
+  intros Hnorun. induction N as [|N IH]; intros w q pre post Hlen Hp Hw Hs; [lia|].
+  assert (Hwn : w < length p) by (apply (i_range st Hinv); congruence).
+  destruct (forallb (fun d => is_ended (status_of st d)) (deps w)) eqn:Hd.
+  { exists w. eexists. split; [assumption|]. unfold step. rewrite Hw, Hd. reflexivity. }
+  apply forallb_false_ex in Hd. destruct Hd as (d & Hin & Hde).
+  destruct (wf_deps p Hwf q pre w post d Hp Hin) as [Hdpre Hds].
+  destruct (i_deps st Hinv w d Hin) as [Hsd|(Hwq & _)]; [congruence| |congruence].
+  destruct (status_of st d) as [| | |r a|] eqn:Hdst; try discriminate.
+  - destruct (in_spawns_split pre d Hdpre) as (pre1 & post1 & Hpre).
+    apply (IH d q pre1 (post1 ++ ASpawn w :: post)).
+    + rewrite Hpre, app_length in Hlen. cbn [length] in Hlen. lia.
+    + rewrite Hp, Hpre, <- app_assoc. reflexivity.
+    + assumption.
+    + congruence.
+  - exfalso. apply (Hnorun d r a); congruence.
+Qed.
+
+Lemma wait_can_step :
+  (forall x r a, stg x = s -> status_of st x <> SRun r a) ->
+  forall w, status_of st w = SWait -> stg w = s -> can_step st.
+Proof.
+  intros Hnorun w Hw Hs.
+  assert (Hwn : w < length p) by (apply (i_range st Hinv); congruence).
+  destruct (Nat.eq_dec (stg w) USER) as [Hu|Hu].
+  - exists w. eexists. split; [assumption|]. unfold step. rewrite Hw.
+    rewrite (wf_userdeps p Hwf w Hu). reflexivity.
+  - pose proof (wf_stage p Hwf w) as Hle.
+    destruct (wf_parent p Hwf w Hwn) as (q & Hq); [lia|].
+    destruct (in_spawns_split _ _ Hq) as (pre & post & Hp).
+    eapply (wait_can_step_aux Hnorun (S (length pre))); [apply Nat.lt_succ_diag_r|eassumption..].
+Qed.
+
+(** (c) nobody of stage s occupies a worker: the head of the queue starts. *)
+Lemma queued_can_step :
+  (forall x, stg x = s -> running (status_of st x) = false) ->
+  forall x, status_of st x = SQueued -> stg x = s -> can_step st.
+Proof.
+  intros Hnorun x Hx Hs.
+  pose proof (i_queued st Hinv x Hx) as Hin. rewrite Hs in Hin.
+  destruct (queue st s) as [|h t] eqn:Hq; [contradiction|].
+  destruct (i_queue st Hinv s h) as [Hhq Hhs]; [rewrite Hq; now left|].
+  exists h. eexists. split; [apply (i_range st Hinv); congruence|].
+  unfold step. rewrite Hhq, Hhs, Hq. rewrite Nat.eqb_refl.
+  destruct (busy st s) as [|b t'] eqn:Hb.
+  - destruct Hcfg as [Hwk _]. specialize (Hwk s). cbn [length andb].
+    destruct (Nat.ltb_spec 0 (workers cfg s)) as [_|Hge]; [reflexivity|lia].
+  - destruct (i_busy st Hinv s b) as [Hrun Hbs]; [rewrite Hb; now left|].
+    rewrite Hnorun in Hrun by assumption. discriminate.
+Qed.
+
+Lemma min_can_step : forall i, live (status_of st i) = true -> stg i = s -> can_step st.
+Proof.
+  intros i Hl Hs.
+  destruct (ids_search (fun x => Nat.eqb (stg x) s &&
+              match status_of st x with SRun _ _ => true | _ => false end) (length p))
+    as [(x & Hx & HP)|Hnorun].
+  { apply andb_prop in HP. destruct HP as [Hxs Hxr]. apply Nat.eqb_eq in Hxs.
+    destruct (status_of st x) as [| | |r a|] eqn:Hxst; try discriminate.
+    eapply run_can_step; eassumption. }
+  assert (Hnorun' : forall x r a, stg x = s -> status_of st x <> SRun r a).
+  { intros x r a Hxs Hxr.
+    assert (Hxn : x < length p) by (apply (i_range st Hinv); congruence).
+    specialize (Hnorun x Hxn). cbv beta in Hnorun.
+    rewrite Hxs, Nat.eqb_refl, Hxr in Hnorun. discriminate. }
+  destruct (ids_search (fun x => Nat.eqb (stg x) s &&
+              match status_of st x with SWait => true | _ => false end) (length p))
+    as [(x & Hx & HP)|Hnowait].
+  { apply andb_prop in HP. destruct HP as [Hxs Hxr]. apply Nat.eqb_eq in Hxs.
+    destruct (status_of st x) eqn:Hxst; try discriminate.
+    eapply wait_can_step; eassumption. }
+  assert (Hnorunning : forall x, stg x = s -> running (status_of st x) = false).
+  { intros x Hxs. destruct (status_of st x) as [| | |r a|] eqn:Hxst; try reflexivity.
+    - assert (Hxn : x < length p) by (apply (i_range st Hinv); congruence).
+      specialize (Hnowait x Hxn). cbv beta in Hnowait.
+      rewrite Hxs, Nat.eqb_refl, Hxst in Hnowait. discriminate.
+    - exfalso. now apply (Hnorun' x r a). }
+  destruct (status_of st i) as [| | |r a|] eqn:Hist; try discriminate.
+  - eapply queued_can_step; eassumption.
+  - specialize (Hnorunning i Hs). rewrite Hist in Hnorunning. discriminate.
+  - exfalso. now apply (Hnorun' i r a).
+Qed.
+
+End AtMin.
+
+Lemma least_live_stage : forall st, inv st -> forall k i,
+  live (status_of st i) = true -> stg i <= k ->
+  exists s i', live (status_of st i') = true /\ stg i' = s /\
+               forall j, live (status_of st j) = true -> s <= stg j.
+Proof.
+  intros st Hinv. induction k as [|k IH]; intros i Hl Hk.
+  - exists 0, i. split; [assumption|]. split; [lia|]. intros j _. lia.
+  - destruct (ids_search (fun j => live (status_of st j) && (stg j <=? k)) (length p))
+      as [(j & Hj & HP)|Hnone].
+    + apply andb_prop in HP. destruct HP as [Hjl Hjk]. apply Nat.leb_le in Hjk.
+      eapply IH; eassumption.
+    + assert (Hall : forall j, live (status_of st j) = true -> S k <= stg j).
+      { intros j Hjl.
+        assert (Hjn : j < length p).
+        { apply (i_range st Hinv). intros He. rewrite He in Hjl. discriminate. }
+        specialize (Hnone j Hjn). cbv beta in Hnone. rewrite Hjl in Hnone. cbn [andb] in Hnone.
+        apply Nat.leb_gt in Hnone. lia. }
+      exists (S k), i. split; [assumption|]. split; [|assumption].
+      specialize (Hall i Hl). lia.
+Qed.
+
+Lemma progress_inv : forall st, inv st ->
+  (exists i, live (status_of st i) = true) -> can_step st.
+Proof.
+  intros st Hinv (i & Hl).
+  destruct (least_live_stage st Hinv (stg i) i Hl (le_n _)) as (s & i' & Hl' & Hs' & Hmin).
+  eapply min_can_step; eassumption.
+Qed.
+
+Lemma run_reachable : forall l st st', reachable cfg p st -> run cfg p st l = Some st' ->
+  reachable cfg p st'.
+Proof.
+  induction l as [|i l IH]; intros st st' Hr Hrun; cbn [run] in Hrun.
+  - injection Hrun as Hrun. now subst.
+  - destruct (step cfg p st i) as [st1|] eqn:Hs; [|discriminate].
+    eapply IH; [|eassumption]. eapply reach_step; eassumption.
+Qed.
+
+Lemma run_app : forall l1 l2 st st1 st2, run cfg p st l1 = Some st1 ->
+  run cfg p st1 l2 = Some st2 -> run cfg p st (l1 ++ l2) = Some st2.
+Proof.
+  induction l1 as [|i l1 IH]; intros l2 st st1 st2 H1 H2; cbn [run app] in *.
+  - injection H1 as H1. now subst.
+  - destruct (step cfg p st i) as [st'|]; [|discriminate]. eapply IH; eassumption.
+Qed.
+
+(** * Termination *)
+
+Lemma msum_le : forall f g n, (forall j, j < n -> f j <= g j) -> msum f n <= msum g n.
+Proof.
+  intros f g. induction n as [|n IH]; intros Hle; cbn [msum]; [lia|].
+  pose proof (Hle n (Nat.lt_succ_diag_r n)) as Hn.
+  assert (Hrec : msum f n <= msum g n) by (apply IH; intros j Hj; apply Hle; lia). lia.
+Qed.
+
+Lemma msum_lt : forall f g n i, i < n -> (forall j, j < n -> f j <= g j) -> f i < g i ->
+  msum f n < msum g n.
+Proof.
+  intros f g. induction n as [|n IH]; intros i Hi Hle Hlt; [lia|]. cbn [msum].
+  destruct (Nat.eq_dec i n) as [->|Hne].
+  - assert (Hrec : msum f n <= msum g n) by (apply msum_le; intros j Hj; apply Hle; lia). lia.
+  - pose proof (Hle n (Nat.lt_succ_diag_r n)) as Hn.
+    assert (Hrec : msum f n < msum g n).
+    { apply (IH i); [lia| |assumption]. intros j Hj. apply Hle. lia. }
+    lia.
+Qed.
+
+Lemma measure_sstep : forall st i st', inv st -> sstep st i st' ->
+  measure p st' < measure p st.
+Proof.
+  intros st i st' Hinv Hstep. unfold measure.
+  assert (Hi : i < length p).
+  { apply (i_range st Hinv). destruct Hstep; congruence. }
+  apply (msum_lt _ _ _ i Hi).
+  - intros j _. ss_cases Hstep.
+    1,2,3,4,6: (destruct (Nat.eq_dec j i) as [->|Hji];
+                [rewrite upd_same, Hst; unfold weight; cbn [length]; try destruct acq; lia
+                |rewrite upd_other by assumption; apply le_n]).
+    pose proof (child_not_spawned st i c rest true Hinv Hst) as Hcn.
+    destruct (Nat.eq_dec j c) as [->|Hjc].
+    + rewrite upd_same, Hcn. unfold weight. lia.
+    + rewrite upd_other by assumption.
+      destruct (Nat.eq_dec j i) as [->|Hji].
+      * rewrite upd_same, Hst. unfold weight. cbn [length]. lia.
+      * rewrite upd_other by assumption. apply le_n.
+  - ss_cases Hstep.
+    1,2,3,4,6: (rewrite upd_same, Hst; unfold weight; cbn [length]; try destruct acq; lia).
+    pose proof (suffix_spawn st i c rest true Hinv Hst) as Hci.
+    pose proof (spawn_ne i c Hci) as Hne.
+    rewrite upd_other by auto. rewrite upd_same, Hst. unfold weight. cbn [length]. lia.
+Qed.
+
+Lemma measure_step : forall st i st', reachable cfg p st -> step cfg p st i = Some st' ->
+  measure p st' < measure p st.
+Proof.
+  intros st i st' Hr Hs. apply (measure_sstep st i st'); [now apply inv_reachable|].
+  now apply step_sstep.
+Qed.
+
+Lemma run_measure : forall l st st', reachable cfg p st -> run cfg p st l = Some st' ->
+  length l + measure p st' <= measure p st.
+Proof.
+  induction l as [|i l IH]; intros st st' Hr Hrun; cbn [run] in Hrun.
+  - injection Hrun as Hrun. subst. cbn [length]. lia.
+  - destruct (step cfg p st i) as [st1|] eqn:Hs; [|discriminate].
+    pose proof (measure_step st i st1 Hr Hs) as Hlt.
+    assert (Hr1 : reachable cfg p st1) by (eapply reach_step; eassumption).
+    specialize (IH st1 st' Hr1 Hrun). cbn [length]. lia.
+Qed.
+
+Lemma no_infinite_run : forall st, reachable cfg p st ->
+  forall (f : nat -> state) (sched : nat -> nat), f 0 = st ->
+    ~ (forall k, step cfg p (f k) (sched k) = Some (f (S k))).
+Proof.
+  intros st Hr f sched H0 Hall.
+  assert (Hk : forall k, reachable cfg p (f k) /\ k + measure p (f k) <= measure p st).
+  { induction k as [|k [IHr IHm]].
+    - rewrite H0. split; [assumption|lia].
+    - split; [eapply reach_step; [exact IHr|apply Hall]|].
+      pose proof (measure_step _ _ _ IHr (Hall k)) as Hlt. lia. }
+  destruct (Hk (S (measure p st))) as [_ Hm]. lia.
+Qed.
+
+(** * The end states *)
+
+Lemma all_ended_inv : forall st, inv st -> (forall i, live (status_of st i) = false) ->
+  forall k i, i < length p -> USER - stg i <= k -> status_of st i = SEnded.
+Proof.
+  intros st Hinv Hnl. induction k as [|k IH]; intros i Hi Hk;
+    pose proof (wf_stage p Hwf i) as Hle.
+  - destruct (status_cases (status_of st i)) as [Hn|[Hl|He]]; [| |assumption].
+    + pose proof (i_user st Hinv i Hi ltac:(lia)) as Hu. rewrite Hn in Hu. discriminate.
+    + rewrite Hnl in Hl. discriminate.
+  - destruct (status_cases (status_of st i)) as [Hn|[Hl|He]]; [| |assumption].
+    + destruct (Nat.eq_dec (stg i) USER) as [Hu|Hu].
+      { pose proof (i_user st Hinv i Hi Hu) as Hu'. rewrite Hn in Hu'. discriminate. }
+      destruct (wf_parent p Hwf i Hi) as (q & Hq); [lia|].
+      pose proof (spawn_lt q i Hq) as Hlt.
+      assert (Hqn : q < length p).
+      { destruct (Nat.lt_ge_cases q (length p)) as [Hlt'|Hge]; [assumption|].
+        rewrite tk_overflow in Hq by assumption. contradiction. }
+      assert (Hqe : status_of st q = SEnded) by (apply IH; [assumption|lia]).
+      apply (i_spawn st Hinv q i Hq) in Hn. unfold pending in Hn. rewrite Hqe in Hn.
+      contradiction.
+    + rewrite Hnl in Hl. discriminate.
+Qed.
+
+Lemma no_live_all_done : forall st, inv st -> (forall i, live (status_of st i) = false) ->
+  all_done p st.
+Proof.
+  intros st Hinv Hnl. split; [|split].
+  - intros i Hi. apply (all_ended_inv st Hinv Hnl USER i Hi). lia.
+  - intros m. destruct (hold st m) as [|h t] eqn:Hh; [reflexivity|]. exfalso.
+    destruct (i_hold st Hinv m h) as [_ Hw]; [rewrite Hh; now left|].
+    pose proof (i_head st Hinv m h t Hh) as Hne.
+    destruct (status_cases (status_of st h)) as [Hn|[Hl|He]]; [| |contradiction].
+    + destruct (Hw Hn) as (q & r & Hq). specialize (Hnl q). rewrite Hq in Hnl. discriminate.
+    + rewrite Hnl in Hl. discriminate.
+  - intros s. split.
+    + destruct (queue st s) as [|x t] eqn:Hq; [reflexivity|]. exfalso.
+      destruct (i_queue st Hinv s x) as [Hx _]; [rewrite Hq; now left|].
+      specialize (Hnl x). rewrite Hx in Hnl. discriminate.
+    + destruct (busy st s) as [|x t] eqn:Hb; [reflexivity|]. exfalso.
+      destruct (i_busy st Hinv s x) as [Hx _]; [rewrite Hb; now left|].
+      specialize (Hnl x). destruct (status_of st x); discriminate.
+Qed.
+
+Lemma stuck_all_done : forall st, reachable cfg p st -> stuck cfg p st -> all_done p st.
+Proof.
+  intros st Hr Hstuck. pose proof (inv_reachable st Hr) as Hinv.
+  apply no_live_all_done; [assumption|]. intros i.
+  destruct (live (status_of st i)) eqn:Hl; [|reflexivity].
+  destruct (progress_inv st Hinv (ex_intro _ i Hl)) as (j & st' & Hj & Hs).
+  rewrite (Hstuck j Hj) in Hs. discriminate.
+Qed.
+
+Lemma all_done_stuck : forall st, all_done p st -> stuck cfg p st.
+Proof.
+  intros st (Hall & _ & _) i Hi. unfold step. now rewrite (Hall i Hi).
+Qed.
+
+(** From every reachable state some schedule completes everything (and by
+    [run_measure] every schedule stops after at most [measure] moves). *)
+Lemma can_complete : forall n st, reachable cfg p st -> measure p st <= n ->
+  exists l st', run cfg p st l = Some st' /\ all_done p st'.
+Proof.
+  induction n as [|n IH]; intros st Hr Hm; pose proof (inv_reachable st Hr) as Hinv.
+  - exists [], st. split; [reflexivity|]. apply no_live_all_done; [assumption|]. intros i.
+    destruct (live (status_of st i)) eqn:Hl; [|reflexivity].
+    destruct (progress_inv st Hinv (ex_intro _ i Hl)) as (j & st' & Hj & Hs).
+    pose proof (measure_step st j st' Hr Hs). lia.
+  - destruct (ids_search (fun i => live (status_of st i)) (length p)) as [(i & Hi & Hl)|Hnone].
+    + destruct (progress_inv st Hinv (ex_intro _ i Hl)) as (j & st1 & Hj & Hs).
+      pose proof (measure_step st j st1 Hr Hs) as Hlt.
+      assert (Hr1 : reachable cfg p st1) by (eapply reach_step; eassumption).
+      destruct (IH st1 Hr1) as (l & st' & Hrun & Hdone); [lia|].
+      exists (j :: l), st'. split; [|assumption]. cbn [run]. now rewrite Hs.
+    + exists [], st. split; [reflexivity|]. apply no_live_all_done; [assumption|]. intros i.
+      destruct (live (status_of st i)) eqn:Hl; [|reflexivity].
+      assert (Hi : i < length p).
+      { apply (i_range st Hinv). intros He. rewrite He in Hl. discriminate. }
+      rewrite (Hnone i Hi) in Hl. discriminate.
 Qed.
 
 End Proofs.
+
+(** * The executable well-formedness check is sound *)
+
+Lemma memb_in : forall x l, memb x l = true <-> In x l.
+Proof.
+  intros x l. unfold memb. rewrite existsb_exists. split.
+  - intros (y & Hy & He). apply Nat.eqb_eq in He. now subst.
+  - intros Hin. exists x. split; [assumption|apply Nat.eqb_refl].
+Qed.
+
+Lemma nodupb_NoDup : forall l, nodupb l = true -> NoDup l.
+Proof.
+  induction l as [|x l IH]; intros Hn; [constructor|].
+  cbn [nodupb] in Hn. apply andb_prop in Hn. destruct Hn as [Hx Hl].
+  constructor; [|now apply IH].
+  intros Hin. apply memb_in in Hin. rewrite Hin in Hx. discriminate.
+Qed.
+
+Lemma NoDup_app_r : forall (a b : list nat), NoDup (a ++ b) -> NoDup b.
+Proof.
+  induction a as [|x a IH]; intros b Hnd; cbn [app] in Hnd; [assumption|].
+  inversion Hnd as [|y l Hx Hl]; subst. now apply IH.
+Qed.
+
+Lemma NoDup_app_l : forall (a b : list nat), NoDup (a ++ b) -> NoDup a.
+Proof.
+  induction a as [|x a IH]; intros b Hnd; [constructor|]. cbn [app] in Hnd.
+  inversion Hnd as [|y l Hx Hl]; subst. constructor.
+  - intros Hin. apply Hx. apply in_or_app. now left.
+  - eapply IH. eassumption.
+Qed.
+
+Lemma flat_nodup_nth : forall (f : task -> list nat) l i, NoDup (flat_map f l) ->
+  i < length l -> NoDup (f (nth i l idle_task)).
+Proof.
+  intros f. induction l as [|t l IH]; intros i Hnd Hi; cbn [length] in Hi; [lia|].
+  cbn [flat_map] in Hnd. destruct i as [|i]; cbn [nth].
+  - eapply NoDup_app_l. eassumption.
+  - apply IH; [|lia]. eapply NoDup_app_r. eassumption.
+Qed.
+
+Lemma flat_in_nth : forall (f : task -> list nat) l i c, i < length l ->
+  In c (f (nth i l idle_task)) -> In c (flat_map f l).
+Proof.
+  intros f l i c Hi Hin. apply in_flat_map. exists (nth i l idle_task).
+  split; [now apply nth_In|assumption].
+Qed.
+
+Lemma flat_uniq : forall (f : task -> list nat) l i i' c, NoDup (flat_map f l) ->
+  i < length l -> i' < length l ->
+  In c (f (nth i l idle_task)) -> In c (f (nth i' l idle_task)) -> i = i'.
+Proof.
+  intros f. induction l as [|t l IH]; intros i i' c Hnd Hi Hi' Hc Hc'; cbn [length] in *; [lia|].
+  cbn [flat_map] in Hnd.
+  destruct i as [|i]; destruct i' as [|i']; cbn [nth] in *.
+  - reflexivity.
+  - exfalso. apply (NoDup_app_disj _ _ c Hnd Hc). apply (flat_in_nth f l i'); [lia|assumption].
+  - exfalso. apply (NoDup_app_disj _ _ c Hnd Hc'). apply (flat_in_nth f l i); [lia|assumption].
+  - f_equal. apply (IH i i' c); try assumption; try lia.
+    eapply NoDup_app_r. eassumption.
+Qed.
+
+Lemma prog_ok_spec : forall p ext prog seen, prog_ok p ext seen prog = true ->
+  (forall pre w post d, prog = pre ++ ASpawn w :: post -> In d (t_deps (tk p w)) ->
+     (In d seen \/ In d (spawns pre)) /\ t_stage (tk p d) = t_stage (tk p w)) /\
+  (forall pre j post, prog = pre ++ AWaitDone j :: post ->
+     exists c, (In c ext \/ In c seen \/ In c (spawns pre)) /\
+               (j = c \/ In j (descendants p c))).
+Proof.
+  intros p ext. induction prog as [|a r IH]; intros seen Hok.
+  { split; intros pre; intros; destruct pre; discriminate. }
+  assert (Hnext : forall seen', prog_ok p ext seen' r = true ->
+            (forall x, In x seen' -> In x seen \/ In x (spawns [a])) ->
+     (forall pre w post d, r = pre ++ ASpawn w :: post -> In d (t_deps (tk p w)) ->
+        (In d seen \/ In d (spawns (a :: pre))) /\ t_stage (tk p d) = t_stage (tk p w)) /\
+     (forall pre j post, r = pre ++ AWaitDone j :: post ->
+        exists c, (In c ext \/ In c seen \/ In c (spawns (a :: pre))) /\
+                  (j = c \/ In j (descendants p c)))).
+  { intros seen' Hok' Hsub. destruct (IH seen' Hok') as [IHd IHw].
+    assert (Hconv : forall x pre, In x seen' \/ In x (spawns pre) ->
+                      In x seen \/ In x (spawns (a :: pre))).
+    { intros x pre [Hx|Hx].
+      - destruct (Hsub x Hx) as [Hs|Hs]; [now left|right].
+        change (a :: pre) with ([a] ++ pre). rewrite spawns_app. apply in_or_app. now left.
+      - right. change (a :: pre) with ([a] ++ pre). rewrite spawns_app. apply in_or_app. now right. }
+    split.
+    - intros pre w post d He Hd.
+      destruct (IHd pre w post d He Hd) as [Hin Hs]. split; [now apply Hconv|assumption].
+    - intros pre j post He.
+      destruct (IHw pre j post He) as (c & Hc & Hj). exists c. split; [|assumption].
+      destruct Hc as [Hc|Hc]; [now left|right; now apply Hconv]. }
+  assert (Hsame : forall x, In x seen -> In x seen \/ In x (spawns [a])) by (intros x Hx; now left).
+  destruct a as [|c| |j|]; cbn [prog_ok] in Hok.
+  - destruct (Hnext seen Hok Hsame) as [Hd Hw].
+    split; intros [|a' pre]; intros; cbn [app] in *; try discriminate.
+    + match goal with He : _ :: _ = _ :: _ |- _ => injection He as Ha Hr; subst a' end.
+      eapply Hd; eassumption.
+    + match goal with He : _ :: _ = _ :: _ |- _ => injection He as Ha Hr; subst a' end.
+      eapply Hw; eassumption.
+  - apply andb_prop in Hok. destruct Hok as [Hdeps Hok].
+    destruct (Hnext (c :: seen) Hok) as [Hd Hw].
+    { intros x [Hx|Hx]; [right; subst; now left|now left]. }
+    split; intros [|a' pre]; intros; cbn [app] in *; try discriminate.
+    + match goal with He : _ :: _ = _ :: _ |- _ => injection He as Hc Hr; subst end.
+      rewrite forallb_forall in Hdeps.
+      match goal with Hin : In _ (t_deps _) |- _ => specialize (Hdeps _ Hin) end.
+      apply andb_prop in Hdeps. destruct Hdeps as [Hm Hs].
+      apply memb_in in Hm. apply Nat.eqb_eq in Hs. split; [now left|assumption].
+    + match goal with He : _ :: _ = _ :: _ |- _ => injection He as Ha Hr; subst a' end.
+      eapply Hd; eassumption.
+    + match goal with He : _ :: _ = _ :: _ |- _ => injection He as Ha Hr; subst a' end.
+      eapply Hw; eassumption.
+  - destruct (Hnext seen Hok Hsame) as [Hd Hw].
+    split; intros [|a' pre]; intros; cbn [app] in *; try discriminate.
+    + match goal with He : _ :: _ = _ :: _ |- _ => injection He as Ha Hr; subst a' end.
+      eapply Hd; eassumption.
+    + match goal with He : _ :: _ = _ :: _ |- _ => injection He as Ha Hr; subst a' end.
+      eapply Hw; eassumption.
+  - apply andb_prop in Hok. destruct Hok as [Hex Hok].
+    destruct (Hnext seen Hok Hsame) as [Hd Hw].
+    split; intros [|a' pre]; intros; cbn [app] in *; try discriminate.
+    + match goal with He : _ :: _ = _ :: _ |- _ => injection He as Ha Hr; subst a' end.
+      eapply Hd; eassumption.
+    + match goal with He : _ :: _ = _ :: _ |- _ => injection He as Hj Hr; subst end.
+      apply existsb_exists in Hex. destruct Hex as (c & Hc & Hjc). exists c.
+      split.
+      * apply in_app_or in Hc. destruct Hc as [Hc|Hc]; [right; now left|now left].
+      * apply orb_prop in Hjc. destruct Hjc as [Hjc|Hjc];
+          [left; now apply Nat.eqb_eq|right; now apply memb_in].
+    + match goal with He : _ :: _ = _ :: _ |- _ => injection He as Ha Hr; subst a' end.
+      eapply Hw; eassumption.
+  - destruct (Hnext seen Hok Hsame) as [Hd Hw].
+    split; intros [|a' pre]; intros; cbn [app] in *; try discriminate.
+    + match goal with He : _ :: _ = _ :: _ |- _ => injection He as Ha Hr; subst a' end.
+      eapply Hd; eassumption.
+    + match goal with He : _ :: _ = _ :: _ |- _ => injection He as Ha Hr; subst a' end.
+      eapply Hw; eassumption.
+Qed.
+
+Lemma foreign_in : forall p i c, In c (foreign p i) ->
+  exists u, u < i /\ t_stage (tk p u) = USER /\ In c (spawns (t_prog (tk p u))).
+Proof.
+  intros p i c Hin. unfold foreign in Hin. apply in_flat_map in Hin.
+  destruct Hin as (u & Hu & Hc). apply in_seq in Hu.
+  destruct (Nat.eqb_spec (t_stage (tk p u)) USER) as [He|Hne]; [|contradiction].
+  exists u. split; [lia|]. split; assumption.
+Qed.
+
+Lemma task_ok_all : forall p, forallb (task_ok p) (seq 0 (length p)) = true ->
+  forall i, task_ok p i = true.
+Proof.
+  intros p Hall i. destruct (Nat.lt_ge_cases i (length p)) as [Hlt|Hge].
+  - rewrite forallb_forall in Hall. apply Hall. apply in_seq. lia.
+  - unfold task_ok, tk. rewrite nth_overflow by assumption. reflexivity.
+Qed.
+
+Lemma wf_planb_sound : forall p, wf_planb p = true -> wf_plan p.
+Proof.
+  intros p Hb. unfold wf_planb in Hb.
+  apply andb_prop in Hb. destruct Hb as [Hb Hpar].
+  apply andb_prop in Hb. destruct Hb as [Hall Hnd].
+  pose proof (task_ok_all p Hall) as Hok. apply nodupb_NoDup in Hnd.
+  assert (Hparts : forall i,
+    (t_stage (tk p i) <=? USER) = true /\
+    forallb (fun c => (c <? length p) && (t_stage (tk p c) <? t_stage (tk p i)))
+            (spawns (t_prog (tk p i))) = true /\
+    match t_tag (tk p i) with Some _ => Nat.eqb (t_stage (tk p i)) REQ | None => true end = true /\
+    prog_ok p (foreign p i) [] (t_prog (tk p i)) = true /\
+    (negb (Nat.eqb (t_stage (tk p i)) USER)
+     || match t_deps (tk p i) with [] => true | _ => false end) = true /\
+    (Nat.eqb (t_stage (tk p i)) USER || negb (existsb user_action (t_prog (tk p i)))) = true).
+  { intros i. specialize (Hok i). unfold task_ok in Hok.
+    repeat (apply andb_prop in Hok; destruct Hok as [Hok ?]). repeat split; assumption. }
+  assert (Hrange : forall i c, In c (spawns (t_prog (tk p i))) -> i < length p).
+  { intros i c Hin. destruct (Nat.lt_ge_cases i (length p)) as [Hlt|Hge]; [assumption|].
+    unfold tk in Hin. rewrite nth_overflow in Hin by assumption. contradiction. }
+  constructor.
+  - intros i. destruct (Hparts i) as (H1 & _). now apply Nat.leb_le.
+  - intros i c Hin. destruct (Hparts i) as (_ & H2 & _). rewrite forallb_forall in H2.
+    specialize (H2 c Hin). apply andb_prop in H2. destruct H2 as [Ha Hb'].
+    apply Nat.ltb_lt in Ha. apply Nat.ltb_lt in Hb'. split; assumption.
+  - intros i i' c Hc Hc'.
+    apply (flat_uniq (fun t => spawns (t_prog t)) p i i' c Hnd);
+      [eapply Hrange; eassumption|eapply Hrange; eassumption|exact Hc|exact Hc'].
+  - intros i. destruct (Nat.lt_ge_cases i (length p)) as [Hlt|Hge].
+    + exact (flat_nodup_nth (fun t => spawns (t_prog t)) p i Hnd Hlt).
+    + unfold tk. rewrite nth_overflow by assumption. constructor.
+  - intros c Hc Hs. rewrite forallb_forall in Hpar.
+    assert (Hin : In c (seq 0 (length p))) by (apply in_seq; lia).
+    specialize (Hpar c Hin). apply orb_prop in Hpar. destruct Hpar as [Hle|Hex].
+    + apply Nat.leb_le in Hle. lia.
+    + apply existsb_exists in Hex. destruct Hex as (t & Ht & Hm). apply memb_in in Hm.
+      destruct (In_nth p t idle_task Ht) as (i & Hi & He). exists i. unfold tk. now rewrite He.
+  - intros i k Ht. destruct (Hparts i) as (_ & _ & H3 & _). rewrite Ht in H3.
+    now apply Nat.eqb_eq.
+  - intros q pre w post d Hp Hd. destruct (Hparts q) as (_ & _ & _ & H4 & _).
+    destruct (prog_ok_spec p _ _ [] H4) as [Hdeps _].
+    destruct (Hdeps pre w post d Hp Hd) as [[[]|Hin] Hs]. split; assumption.
+  - intros i Hu. destruct (Hparts i) as (_ & _ & _ & _ & H5 & _).
+    rewrite Hu in H5. cbn in H5. destruct (t_deps (tk p i)); [reflexivity|discriminate].
+  - intros i a Hin Ha. destruct (Hparts i) as (_ & _ & _ & _ & _ & H6).
+    apply orb_prop in H6. destruct H6 as [H6|H6]; [now apply Nat.eqb_eq|].
+    assert (Hex : existsb user_action (t_prog (tk p i)) = true).
+    { apply existsb_exists. exists a. split; [assumption|].
+      destruct Ha as [->|(j & ->)]; reflexivity. }
+    rewrite Hex in H6. discriminate.
+  - intros i pre j post Hp. destruct (Hparts i) as (_ & _ & _ & H4 & _).
+    destruct (prog_ok_spec p _ _ [] H4) as [_ Hwd].
+    destruct (Hwd pre j post Hp) as (c & [Hc|[[]|Hc]] & Hj); exists c; (split; [|assumption]).
+    + right. now apply foreign_in.
+    + now left.
+Qed.
+
+(** * The theorems of C04 about the staged executors *)
+
+Theorem stage_progress : forall cfg p st,
+  config_ok cfg -> wf_plan p -> reachable cfg p st ->
+  (exists i, live (status_of st i) = true) ->
+  exists i st', i < length p /\ step cfg p st i = Some st'.
+Proof.
+  intros cfg p st Hcfg Hwf Hr Hl.
+  exact (progress_inv cfg p Hwf Hcfg st (inv_reachable cfg p Hwf st Hr) Hl).
+Qed.
+
+Theorem stage_terminates : forall cfg p st,
+  wf_plan p -> reachable cfg p st ->
+  (forall i st', step cfg p st i = Some st' -> measure p st' < measure p st) /\
+  (forall l st', run cfg p st l = Some st' -> length l + measure p st' <= measure p st) /\
+  (forall (f : nat -> state) (sched : nat -> nat), f 0 = st ->
+     ~ (forall k, step cfg p (f k) (sched k) = Some (f (S k)))).
+Proof.
+  intros cfg p st Hwf Hr. split; [|split].
+  - intros i st' Hs. exact (measure_step cfg p Hwf st i st' Hr Hs).
+  - intros l st' Hrun. exact (run_measure cfg p Hwf l st st' Hr Hrun).
+  - exact (no_infinite_run cfg p Hwf st Hr).
+Qed.
+
+Theorem stage_all_done_eventually : forall cfg p,
+  config_ok cfg -> wf_plan p ->
+  forall l st, run cfg p (init p) l = Some st ->
+    length l <= measure p (init p) /\
+    (stuck cfg p st <-> all_done p st) /\
+    (exists l' st', run cfg p st l' = Some st' /\ all_done p st').
+Proof.
+  intros cfg p Hcfg Hwf l st Hrun.
+  assert (Hr : reachable cfg p st).
+  { eapply run_reachable; [apply reach_init|eassumption]. }
+  split; [|split].
+  - pose proof (run_measure cfg p Hwf l (init p) st (reach_init cfg p) Hrun). lia.
+  - split; [exact (stuck_all_done cfg p Hwf Hcfg st Hr)|apply all_done_stuck].
+  - exact (can_complete cfg p Hwf Hcfg (measure p st) st Hr (le_n _)).
+Qed.
+
+(** The limits are respected along the way. *)
+Lemma remove_id_length : forall i l, length (remove_id i l) <= length l.
+Proof.
+  intros i. induction l as [|x l IH]; [apply le_n|]. unfold remove_id in *. cbn [filter].
+  destruct (negb (Nat.eqb x i)); cbn [length]; lia.
+Qed.
+
+Theorem stage_bounds : forall cfg p st, reachable cfg p st ->
+  (forall m, length (hold st m) <= cap cfg m) /\
+  (forall s, length (busy st s) <= workers cfg s).
+Proof.
+  intros cfg p st Hr. induction Hr as [|st i st' Hr [IHh IHb] Hs].
+  - split; intros; cbn; lia.
+  - apply step_sstep in Hs.
+    destruct Hs as [q' Hst Hq Hw | Hst Hd | a rest acq Hst Ha Hgd | c rest Hst Hc
+                   | c rest Hst | acq Hst]; cbn [hold busy set_status finish];
+      try (split; assumption).
+    + split; [assumption|]. intros s. destruct (Nat.eq_dec s (t_stage (tk p i))) as [->|Hne].
+      * rewrite upd_same. cbn [length]. lia.
+      * rewrite upd_other by assumption. apply IHb.
+    + split; [|assumption]. intros m.
+      destruct (sem_eqb_spec m (sem_of (tk p c))) as [->|Hne].
+      * rewrite upds_same. rewrite app_length. cbn [length]. lia.
+      * rewrite upds_other by assumption. apply IHh.
+    + split.
+      * intros m. destruct (sem_eqb_spec m (sem_of (tk p i))) as [->|Hne].
+        -- rewrite upds_same.
+           match goal with |- context [sweep ?e ?b [] ?l] =>
+             pose proof (sweep_length e b l []) as Hlen end.
+           specialize (IHh (sem_of (tk p i))). lia.
+        -- rewrite upds_other by assumption. apply IHh.
+      * intros s. destruct (Nat.eq_dec s (t_stage (tk p i))) as [->|Hne].
+        -- rewrite upd_same. specialize (IHb (t_stage (tk p i))).
+           pose proof (remove_id_length i (busy st (t_stage (tk p i)))). lia.
+        -- rewrite upd_other by assumption. apply IHb.
+Qed.
+
+(** A plain counting semaphore gives an ended holder's permit back at once. *)
+Lemma sweep_plain : forall e b l k, (forall y x, b y x = false) ->
+  sweep e b k l = filter (fun x => negb (e x)) l.
+Proof.
+  intros e b l k Hb. revert k. induction l as [|x l IH]; intros k; [reflexivity|].
+  cbn [sweep filter].
+  assert (Hex : existsb (fun y => b y x) k = false).
+  { induction k as [|y k IHk]; [reflexivity|]. cbn [existsb]. now rewrite Hb, IHk. }
+  rewrite Hex. cbn [negb]. rewrite andb_true_r.
+  destruct (e x); cbn [negb]; rewrite IH; reflexivity.
+Qed.
+
+Lemma blocks_plain : forall cfg p m,
+  match m with SemStage _ => True | SemTag k => sliding cfg k = false end ->
+  forall y x, blocks cfg p m y x = false.
+Proof.
+  intros cfg p [s|k] Hm y x; cbn [blocks]; [reflexivity|]. now rewrite Hm.
+Qed.
+
+Lemma stuckb_stuck : forall cfg p st, stuckb cfg p st = true -> stuck cfg p st.
+Proof.
+  intros cfg p st Hb i Hi. unfold stuckb in Hb. rewrite forallb_forall in Hb.
+  assert (Hin : In i (seq 0 (length p))) by (apply in_seq; lia).
+  specialize (Hb i Hin). destruct (step cfg p st i); [discriminate|reflexivity].
+Qed.
+
+(** * The discipline matters: a request task that submits to the request
+    executor deadlocks a 1-permit (or 1-worker) configuration. *)
+
+Definition ones : config := mkConfig (fun _ => 1) (fun _ => 1) (fun _ => true).
+
+(** 0: user thread; 1: submission task; 2: request task that submits request task 3. *)
+Definition bad_plan : plan :=
+  [ mkTask USER None 0 [] [ASpawn 1; AWaitDone 1; AJoin];
+    mkTask SUB None 0 [] [ASpawn 2];
+    mkTask REQ None 0 [] [ASpawn 3];
+    mkTask REQ None 0 [] [AWork] ].
+
+(** user submits 1; 1 starts, submits 2, ends; 2 starts; user passes result(). *)
+Definition bad_sched : list nat := [0; 0; 1; 1; 1; 1; 2; 2; 1; 0].
+
+Definition bad_state : state :=
+  match run ones bad_plan (init bad_plan) bad_sched with
+  | Some st => st
+  | None => init bad_plan
+  end.
+
+Lemma ones_ok : config_ok ones.
+Proof. split; intros; cbn; lia. Qed.
+
+Theorem stage_same_stage_spawn_deadlocks :
+  exists cfg p l st,
+    config_ok cfg /\ (forall s, workers cfg s = 1) /\ (forall m, cap cfg m = 1) /\
+    (* the plan breaks only the "strictly lower stage" rule: task 2 and its child 3 are both REQ *)
+    t_stage (tk p 2) = REQ /\ t_stage (tk p 3) = REQ /\ In 3 (spawns (t_prog (tk p 2))) /\
+    run cfg p (init p) l = Some st /\
+    stuck cfg p st /\
+    (* task 2 holds the only request permit and waits for a second one; shutdown() hangs *)
+    status_of st 2 = SRun [ASpawn 3] false /\ hold st (SemStage REQ) = [2] /\
+    status_of st 0 = SRun [AJoin] false /\
+    ~ all_done p st.
+Proof.
+  exists ones, bad_plan, bad_sched, bad_state.
+  split; [exact ones_ok|]. split; [reflexivity|]. split; [reflexivity|].
+  split; [reflexivity|]. split; [reflexivity|]. split; [cbn; auto|].
+  split; [vm_compute; reflexivity|].
+  split; [apply stuckb_stuck; vm_compute; reflexivity|].
+  split; [vm_compute; reflexivity|]. split; [vm_compute; reflexivity|].
+  split; [vm_compute; reflexivity|].
+  intros (Hall & _). assert (H2 : 2 < length bad_plan) by (cbn; lia).
+  specialize (Hall 2 H2). vm_compute in Hall. discriminate.
+Qed.
+
+(** * Example data for props/C04Stage.v *)
+
+(** One worker per stage, one permit per semaphore; tag 0 =
+    max_in_memory_upload_chunks (plain), tag 1 = max_in_memory_download_chunks
+    (sliding window). *)
+Definition all_ones : config := mkConfig (fun _ => 1) (fun _ => 1) (fun k => Nat.eqb k 1).
+Definition twos : config := mkConfig (fun s => if Nat.eqb s IO then 1 else 2) (fun _ => 2)
+                                     (fun k => Nat.eqb k 1).
+
+(** A user thread submits a multipart upload from a stream (transfer 1) and a
+    ranged download whose submission fails after submitting (transfer 2),
+    calls result() on both and shuts the manager down.
+     0 user; 1 upload submission; 2 download submission (error path: AWaitAll);
+     3 CreateMultipartUpload; 4,5 UploadPart (tag 0, depend on 3);
+     6 CompleteMultipartUpload (depends on 4,5; announces transfer 1);
+     7,8 GetObject (tag 1) submitting IO writes 9,10 / 11 and, from the
+     count-down callback of 8, the final IO task 12;
+     13 a second user thread: result() on the download of thread 0, shutdown(). *)
+Definition demo : plan :=
+  [ mkTask USER None 0 [] [ASpawn 1; ASpawn 2; AWaitDone 6; AWork; AWaitDone 2; AJoin];
+    mkTask SUB None 1 [] [AWork; ASpawn 3; ASpawn 4; ASpawn 5; ASpawn 6];
+    mkTask SUB None 2 [] [AWork; ASpawn 7; ASpawn 8; AWaitAll; AWork];
+    mkTask REQ None 1 [] [AWork];
+    mkTask REQ (Some 0) 1 [3] [AWork];
+    mkTask REQ (Some 0) 1 [3] [AWork];
+    mkTask REQ None 1 [4; 5] [AWork; AWork];
+    mkTask REQ (Some 1) 2 [] [AWork; ASpawn 9; ASpawn 10; AWork];
+    mkTask REQ (Some 1) 2 [] [AWork; ASpawn 11; ASpawn 12];
+    mkTask IO None 2 [] [AWork];
+    mkTask IO None 2 [] [AWork];
+    mkTask IO None 2 [] [AWork];
+    mkTask IO None 2 [] [AWork; AWork];
+    mkTask USER None 0 [] [AWork; AWaitDone 12; AJoin] ].
+
